@@ -145,8 +145,6 @@ void BpEndecodeAlias(struct BpAliasDescriptor *descriptor,
 // iterates all array elements to process.
 void BpEndecodeArray(struct BpArrayDescriptor *descriptor,
                      struct BpProcessorContext *ctx, void *data) {
-    // Keep current number of bits total processed.
-    int i = ctx->i;
     // Opponent array capacity if extensible is set.
     uint16_t ahead = 0;
 
@@ -159,6 +157,9 @@ void BpEndecodeArray(struct BpArrayDescriptor *descriptor,
             ahead = BpDecodeArrayExtensibleAhead(descriptor, ctx);
         }
     }
+
+    // Keep number of bits processed before the first element.
+    int j = ctx->i;
 
     int cap = descriptor->cap;
     int element_nbits = descriptor->element_type.nbits;
@@ -230,7 +231,10 @@ void BpEndecodeArray(struct BpArrayDescriptor *descriptor,
 
     // Skip redundant bits if decoding.
     if (descriptor->extensible && (!ctx->is_encode)) {
-        int ito = i + (((int)ahead) * descriptor->cap);
+        // Number of bits an element occupies in the stream (an element may be
+        // an extended message, so measure it from what was consumed).
+        int element_nbits_in_stream = (ctx->i - j) / descriptor->cap;
+        int ito = j + (((int)ahead) * element_nbits_in_stream);
         if (ito >= ctx->i) {
             ctx->i = ito;
         }
